@@ -9,7 +9,7 @@ import (
 func init() {
 	reg("C15", Meta{
 		Technique:   "must-guard reachability on SSA: the counter-changing traversal is behind the root-pin lookup, in the service and in the HTTP handlers",
-		Explanation: "C15 (pin / unpin idempotent inverses), structural clauses: (G1) pinning.Service.CreatePin reaches the chunk traversal (which increments every chunk's pin counter) and the root-pin write only on the branch where the root pin was looked up and found absent; DeletePin reaches the unpin traversal and the root-pin delete only on the branch where the root pin exists; (G2) the HTTP handlers call CreatePin only behind HasPin()==false and DeletePin only behind HasPin()==true, both behind err==nil; (P1) the traversal callbacks use ModeSetPin / ModeSetUnpin on the visited leaf with the root as context. Not decided: the counter values themselves (C13/C14 findings in the local store limit what the counters mean).",
+		Explanation: "C15 (pin / unpin idempotent inverses), structural clauses: (G1) pinning.Service.CreatePin reaches the chunk traversal (which increments every chunk's pin counter) and the root-pin write only on the branch where the root pin was looked up and found absent; DeletePin reaches the unpin traversal and the root-pin delete only on the branch where the root pin exists; (G2) the HTTP handlers call CreatePin only behind HasPin()==false and DeletePin only behind HasPin()==true, both behind err==nil; (P1) the traversal callbacks use ModeSetPin / ModeSetUnpin on the visited leaf with the root as context; (A1) both callbacks apply their Set on every path, i.e. to every leaf occurrence they are called for (no one-sided skipping or de-duplication, which would make pin and unpin change a repeated chunk's counter by different amounts). Not decided: the counter values themselves (C13/C14 findings in the local store limit what the counters mean).",
 	}, c15)
 }
 
@@ -103,6 +103,25 @@ func c15(r *core.Run) {
 		}
 		r.Check("C15.P1", core.Key("C15.P1", row.fn, "leaf callback uses "+row.name), row.fn.Pos(), ok,
 			"the traversal callback applies "+row.name+" to the visited chunk", "the traversal callback does not Set("+row.name+", leaf)")
+		// A1: pin and unpin visit symmetric: each applies its Set to EVERY visited leaf (no
+		// early return, no de-duplication on one side only) — otherwise a chunk occurring k
+		// times in a tree is pinned once and unpinned k times (or vice versa)
+		for _, cl := range core.Closures(row.fn) {
+			sets := core.Calls(cl, "(pkg/storage.Storer).Set", "(pkg/storage.Setter).Set")
+			if len(sets) == 0 {
+				continue
+			}
+			uncond := mustPassFrom([]*ssa.BasicBlock{cl.Blocks[0]}, func(in ssa.Instruction) bool {
+				for _, s := range sets {
+					if in == s {
+						return true
+					}
+				}
+				return false
+			})
+			r.Check("C15.A1", core.Key("C15.A1", row.fn, "every visited leaf gets "+row.name), cl.Pos(), uncond,
+				"the traversal callback changes the pin counter of every leaf occurrence it is called for", "the callback can return without Set("+row.name+", leaf) (skipping / de-duplicating visits on one side only): pin and unpin no longer change a repeated chunk's counter by the same amount")
+		}
 	}
 	_ = S
 
